@@ -1,5 +1,5 @@
 """C07 - Proof randomness is never reused (Randomness.tla, NonrevCache.tla)."""
-import os, json, vplib
+import os, json, vplib, cprngstage
 
 def run(chk):
     T = chk.tier
@@ -12,7 +12,9 @@ def run(chk):
                 "proof and requires pairwise distinctness, requires each NonRevocationProofBuilder (pointer) to be consumed by one proof only, and runs the "
                 "two-transcript extractor over ALL pairs of proofs of a credential ((s1-s2)/(c1-c2) must not be a hidden value). All 1,120 interleavings of the "
                 "cache protocol are established on real goroutines through blocking hooks (thorough: 10,080 with 3 provers, sampled) with the outcome of every "
-                "step (received from cache / built / stored / discarded, which builder) compared with the spec. Non-trivial = distinct sequence or schedule.")
+                "step (received from cache / built / stored / discarded, which builder) compared with the spec. CPRNG.tla / CPRNGTrace.tla: concurrent goroutines read "
+                "the fast generator (the source of the non-revocation randomisers) with a known seed; the recorded keystream reservations must tile the keystream "
+                "without overlap (an overlap = the same randomness handed out twice). Non-trivial = distinct sequence or schedule.")
     chk.assumptions = ["statistical quality of the randomness is not examined, only reuse", "re-using one builder object for two CreateProof calls is API misuse, not explored",
                        "1024-bit keys"]
     cfg = "Randomness.mc.%s.cfg" % T
@@ -44,6 +46,10 @@ def run(chk):
     n = 2500 if thorough else 400
     res = vplib.vh("cc", ["gates", "--in", cp, "--tier", T, "--seed", str(chk.seed), "--n", str(n)], timeout=3000)
     chk.add_replay(res, "cache_schedules")
+    # the fast generator behind the non-revocation randomisers under concurrent readers: no two reads may get the same keystream
+    r = vplib.tlc_mc("CPRNG", "CPRNG.mc.cfg", timeout=600)
+    chk.add_tlc(r, "CPRNG", "CPRNG.mc.cfg", "NoKeystreamOverlap, GapFree")
+    cprngstage.run(chk, d, race=True)
 
 def replay(chk, path):
     print("re-run bin/check C07 with VERIF_SEED=%d to reproduce" % chk.seed)
